@@ -230,15 +230,20 @@ Proof. unfold clean; intros e out He Hc [H|H]; [inversion H; congruence|auto]. Q
 Lemma clean_ok : forall out, clean out -> clean (OOk :: out).
 Proof. unfold clean; intros out Hc [H|H]; [discriminate|auto]. Qed.
 
-Lemma good_raise : forall abort e b out w k, e <> EDupSeq -> clean out -> kgood abort w k ->
-  good abort w (raise_ abort e b out w k).
+Lemma good_raise : forall abort e b out w after k, e <> EDupSeq -> clean out -> kgood abort w k ->
+  good abort w (raise_ abort e b out w after k).
 Proof.
-  intros abort e b out w k He Hc Hk. unfold raise_. destruct abort.
-  - repeat split; simpl; auto.
-    + constructor.
-    + destruct b; auto using clean_cons.
-    + congruence.
-    + apply EP_quiet; [apply same_seq_refl|auto].
+  intros abort e b out w after k He Hc Hk. unfold raise_. destruct abort.
+  - destruct (existsb is_finally after && (st w =? S_HANDLING)).
+    + repeat split; simpl; try discriminate.
+      * constructor; [exact He|constructor].
+      * destruct b; auto using clean_cons.
+      * apply EP_quiet; [repeat split|auto].
+    + repeat split; simpl.
+      * constructor.
+      * destruct b; auto using clean_cons.
+      * congruence.
+      * apply EP_quiet; [apply same_seq_refl|auto].
   - apply Hk; [apply same_seq_refl|]. apply clean_cons; auto.
 Qed.
 
@@ -310,6 +315,10 @@ Proof.
       apply Hk'; [repeat split|auto].
     + apply Hk'; auto using same_seq_refl.
     + apply good_raise; auto.
+    + destruct (st w =? S_HANDLING).
+      * repeat split; simpl; auto; try discriminate.
+        apply EP_quiet; [repeat split|auto].
+      * apply Hk'; auto using same_seq_refl.
 Qed.
 
 Lemma replay_code_ok : forall rws hi rs d gfb gfe saved,
@@ -772,7 +781,7 @@ Definition init_ok (w : world) : Prop :=
 Definition base_instr (i : instr) : bool :=
   match i with
   | ISend m | ISendRest m => is_new m
-  | ITestReq | IStateHook _ _ | IHook | ISetRole _ | IResend _ _ _ => true
+  | ITestReq | IStateHook _ _ | IHook | ISetRole _ | IResend _ _ _ | IFinally => true
   | IRaise _ => false
   end.
 
@@ -1023,4 +1032,17 @@ Lemma lifo_counter_refuted :
   let c := run_sched lifo_cfg lifo_sched in
   fifo_sched lifo_cfg lifo_sched = false /\ valid_sched lifo_cfg lifo_sched = true /\ all_done c = true
   /\ map f_seq (wire_of (c_w c)) = [1; 2] /\ sout (c_w c) = 1 /\ nout (c_w c) = 3.
+Proof. vm_compute. repeat split; reflexivity. Qed.
+
+(* a request that cannot be served (BeginSeqNo beyond the last sent number): the assertion aborts the handler,
+   the finally clause around _process_resend puts the state back to ACTIVE (one more on_state_change hook),
+   the concurrent send is unaffected *)
+Definition un_cfg : config := mkC (after [app 1; app 2]) [reader_resend 7 0 []; sender_task [app 9]].
+Definition un_sched : list nat := [0; 0; 1; 0; 1]%nat.
+
+Lemma resend_unservable_example :
+  let c := run_sched un_cfg un_sched in
+  fifo_sched un_cfg un_sched = true /\ valid_sched un_cfg un_sched = true /\ all_done c = true
+  /\ map t_exc (c_ts c) = [Some EAssert; None] /\ wire_view (c_w c) = [(3, false, 9)]
+  /\ st (c_w c) = S_ACTIVE /\ sout (c_w c) = 3 /\ nout (c_w c) = 4.
 Proof. vm_compute. repeat split; reflexivity. Qed.
